@@ -7,7 +7,7 @@ of terms.py; branches are pruned only by constant folding.
 """
 import ast
 
-from .terms import (V, Const, Sym, App, TupleV, DictV, Obj, ClassV, FuncV, Bound, ModV, ExtV,
+from .terms import (V, Const, Sym, App, TupleV, DictV, Obj, ClassV, FuncV, Bound, ModV, ExtV, IterV,
                     mk_app, ty_of, is_app, show, TRUE, FALSE, NONE)
 from .loader import AnalysisError, stmt_text
 
@@ -149,8 +149,9 @@ class Policy(object):
         if self.is_leaf_arith(node, mod):
             nst = sum(1 for st in body for n in ast.walk(st) if isinstance(n, ast.stmt))
             branch = any(isinstance(n, (ast.If, ast.IfExp)) for st in body for n in ast.walk(st))
-            if branch or nst >= 6 or self.returns_boolean(node):
-                return "leaf"
+            if branch or nst >= 6 or (self.returns_boolean(node) and len(node.args.args) == 1 and not node.args.defaults
+                                      and not isinstance(getattr(node, "_parent", None), (ast.FunctionDef, ast.Lambda))):
+                return "leaf"       # (a predicate on one value, e.g. on a coordinate tuple, stays opaque; see returns_boolean)
         return "inline"
 
     def is_generator(self, f):
@@ -179,6 +180,8 @@ class Policy(object):
             return False
         for r in rets:
             v = r.value
+            if isinstance(v, ast.Call) and isinstance(v.func, ast.Name) and v.func.id == "bool" and len(v.args) == 1 and not v.keywords:
+                v = v.args[0]                      # bool(<comparison / and / or>)
             if isinstance(v, (ast.Compare, ast.BoolOp)) or (isinstance(v, ast.UnaryOp) and isinstance(v.op, ast.Not)) \
                     or (isinstance(v, ast.Constant) and isinstance(v.value, bool)):
                 continue
@@ -257,6 +260,13 @@ class Policy(object):
                 return "param"        # result of a function-valued parameter: no information
             if isinstance(e, ast.Name) and e.id in assigns and len(assigns[e.id]) == 1:
                 return shape(assigns[e.id][0], depth + 1)
+            if isinstance(e, ast.Name) and e.id in assigns and e.id not in [x.arg for x in node.args.args]:
+                # a local assigned several times (an accumulator): every assigned value has the same shape
+                ss = [shape(v, depth + 1) for v in assigns[e.id]]
+                real = {x for x in ss if x not in ("self", "param")}
+                if len(real) == 1 and None not in real:
+                    return real.pop()
+                return None
             if isinstance(e, ast.Call) and isinstance(e.func, ast.Name):
                 v = self.world.static_lookup(f.mod, e.func.id)
                 if isinstance(v, FuncV):
@@ -294,6 +304,15 @@ def _is_closed(t):
     if isinstance(t, TupleV):
         return all(_is_closed(i) for i in t.items)
     return False
+
+
+def _const_term(x):
+    if isinstance(x, (tuple, list)):
+        return TupleV([_const_term(i) for i in x], "tuple" if isinstance(x, tuple) else "list")
+    return Const(x)
+
+
+UNROLL_MAX = 40      # loops over longer known sequences are not unrolled (the callee stays an opaque call)
 
 
 class Path(object):
@@ -336,6 +355,25 @@ class Ev(object):
         st.heap[o.oid] = {}
         return o
 
+    # single-pass iterators (zip/map/enumerate/reversed/generators): a heap cell holding what is left
+    def new_iter(self, items, st):
+        it = IterV(self.next_oid[0])
+        self.next_oid[0] += 1
+        st.heap[it.oid] = {"items": TupleV(list(items.items), "list")}
+        return it
+
+    def take(self, v, st):
+        """Consume an iterator completely: -> the sequence of its remaining items (and it is empty
+        from now on, for every alias).  Other values are returned unchanged."""
+        if isinstance(v, IterV):
+            cell = st.heap.get(v.oid)
+            if cell is None or "items" not in cell:
+                return App("iter-unknown", (v,))
+            cur = cell["items"]
+            st.heap[v.oid] = {"items": TupleV([], "list")}
+            return cur
+        return v
+
     def do_raise(self, st, exc, site, detail=None):
         if isinstance(exc, str):
             exc = App("exc:builtins." + exc, [Const(detail)] if detail is not None else [])
@@ -353,7 +391,7 @@ class Ev(object):
             if v.cls.lookup("__bool__") or v.cls.lookup("__len__"):
                 return None
             return True
-        if isinstance(v, (FuncV, ClassV, Bound, ModV, ExtV)):
+        if isinstance(v, (FuncV, ClassV, Bound, ModV, ExtV, IterV)):
             return True
         if isinstance(v, TupleV):
             return bool(v.items)
@@ -375,6 +413,17 @@ class Ev(object):
         for (c, pol, _) in st.pc:
             if c == v:
                 return [(st, pol)]
+        if ty_of(v) in ("bytes", "str") and not is_app(v, "NotEq", "Eq"):
+            # truth value of a byte/character string: it is non-empty
+            return self.branch(mk_app("NotEq", (mk_app("len", (v,)), Const(0))), st, site)
+        if is_app(v, "Or") and len(v.args) == 2:
+            out = []
+            for s1, bb in self.branch(v.args[0], st, site):
+                if bb:
+                    out.append((s1, True))
+                else:
+                    out += self.branch(v.args[1], s1, site)
+            return out
         if is_app(v, "And"):
             # a chained comparison / conjunction: decided conjunct by conjunct, so that the path
             # condition holds the individual facts
@@ -441,7 +490,8 @@ class Ev(object):
             if len(normal) > 1:
                 # paths that differ only in a condition the analysis could not fold, but leave the
                 # module namespace and the heap identical, are one import as far as later code can tell
-                sigs = {self._import_sig(p, set(st.heap)) for p in normal}
+                table = {}
+                sigs = {self._import_sig(p, set(st.heap), table) for p in normal}
                 if len(sigs) == 1:
                     w.import_facts.append(("import-time fork without observable difference collapsed", len(normal), self.site(stn, env)))
                     normal = normal[:1]
@@ -454,19 +504,15 @@ class Ev(object):
             m.globals.update(normal[0].val["locals"])
 
     @staticmethod
-    def _import_sig(p, before):
+    def _import_sig(p, before, table):
         """Namespace + heap of a path, with the objects it allocated numbered in allocation order."""
+        from .terms import canon_id
         new = sorted(o for o in p.st.heap if o not in before)
         ren = {o: -(i + 1) for i, o in enumerate(new)}
-
-        def rk(k):
-            if isinstance(k, tuple):
-                if len(k) == 2 and k[0] == "O" and k[1] in ren:
-                    return ("O", ren[k[1]])
-                return tuple(rk(x) for x in k)
-            return k
-        g = tuple(sorted((k, rk(v._key)) for k, v in p.val["locals"].items() if isinstance(v, V)))
-        h = tuple(sorted((ren.get(oid, oid), tuple(sorted((k, rk(v._key)) for k, v in f.items()))) for oid, f in p.st.heap.items()))
+        memo = {}
+        g = tuple(sorted((k, canon_id(v, ren, table, memo)) for k, v in p.val["locals"].items() if isinstance(v, V)))
+        h = tuple(sorted((ren.get(oid, oid), tuple(sorted((k, canon_id(v, ren, table, memo)) for k, v in f.items() if isinstance(v, V))))
+                         for oid, f in p.st.heap.items()))
         return (g, h)
 
     def module_global(self, m, name, st):
@@ -527,6 +573,7 @@ class Ev(object):
             if isinstance(e, ast.Starred):
                 for (s1, acc) in outs:
                     for (s2, v) in self.expr(e.value, env, s1):
+                        v = self.take(v, s2)
                         if isinstance(v, TupleV):
                             nxt.append((s2, acc + v.items))
                         else:
@@ -819,6 +866,8 @@ class Ev(object):
 
     def compare(self, op, a, b, st, site):
         """-> [(state, term)]"""
+        if op in ("In", "NotIn") and isinstance(b, IterV):
+            b = self.take(b, st)                         # `x in iterator` consumes the iterator
         if is_app(b, "msc") and op in ("In", "NotIn"):
             init = self.msc_view(b)
             if init is not None:
@@ -914,6 +963,9 @@ class Ev(object):
         g = n.generators[0]
         res = []
         for s1, it in self.expr(g.iter, env, st):
+            it = self.take(it, s1)
+            if isinstance(it, Const) and isinstance(it.v, (bytes, str, tuple, list)) and len(it.v) <= 256:
+                it = TupleV([_const_term(x) for x in it.v], "list")       # iterating a constant: its items
             if isinstance(it, TupleV):
                 outs = [(s1, ())]
                 for item in it.items:
@@ -925,7 +977,7 @@ class Ev(object):
                         for s3, v in self.expr(n.elt, e2, s2):
                             nxt.append((s3, acc + (v,)))
                     outs = nxt
-                res += [(s2, TupleV(acc, "list")) for s2, acc in outs]
+                res += [(s2, TupleV(acc, "list") if tag != "genexp" else self.new_iter(TupleV(acc, "list"), s2)) for s2, acc in outs]
                 continue
             ph = Sym("\u03bb%d" % self.depth)
             e2 = self._cp(env)
@@ -1059,6 +1111,7 @@ class Ev(object):
             return None    # parameter: the container belongs to the caller (judged by C16)
         out = []
         for s2, args in self._seq(n.args, env, st):
+            args = tuple(self.take(a, s2) for a in args)
             new = None
             if isinstance(cur, TupleV) and cur.kind == "list":
                 if meth == "append" and len(args) == 1:
@@ -1070,8 +1123,10 @@ class Ev(object):
                     items.insert(args[0].v, args[1])
                     new = TupleV(items, "list")
                 elif meth == "reverse" and not args:
-                    new = TupleV(cur.items[::-1], "list")
+                    new = TupleV(cur.items[::-1], "list") if not any(is_app(i, "star") for i in cur.items) else mk_app("rev", (cur,))
             elif isinstance(cur, DictV):
+                if meth == "update" and len(args) == 1 and isinstance(args[0], TupleV):
+                    args = (mk_app("dict", (args[0],)),)           # d.update(iterable of (key, value) pairs)
                 if meth == "update" and len(args) == 1 and isinstance(args[0], DictV):
                     d = dict(cur.items)
                     d.update(args[0].items)
@@ -1113,6 +1168,7 @@ class Ev(object):
         return out
 
     def _call_opaque_method(self, recv, name, args, kw, st, site):
+        args = tuple(self.take(a, st) for a in args)
         if is_app(recv, "msc"):
             if name in _MUTATORS:
                 st.log.append(("mutator-call", recv, name, args, site))
@@ -1141,6 +1197,8 @@ class Ev(object):
                 return [Outcome("return", TupleV([Const(k) for k in recv.items], "list"), st)]
             if name == "values" and not args:
                 return [Outcome("return", TupleV(list(recv.items.values()), "list"), st)]
+            if name == "items" and not args:
+                return [Outcome("return", TupleV([TupleV([_const_term(k), v], "tuple") for k, v in recv.items.items()], "list"), st)]
             if name == "copy" and not args:
                 return [Outcome("return", recv, st)]
         if isinstance(recv, TupleV) and name == "copy" and not args:
@@ -1152,6 +1210,31 @@ class Ev(object):
 
     def _call_ext(self, f, args, kw, st, site):
         name = f.name[9:] if f.name.startswith("builtins.") else f.name
+        if name == "next" and args and isinstance(args[0], IterV) and "items" in st.heap.get(args[0].oid, {}):
+            cur = st.heap[args[0].oid]["items"]
+            if cur.items:
+                st.heap[args[0].oid] = {"items": TupleV(list(cur.items[1:]), "list")}
+                return [Outcome("return", cur.items[0], st)]
+            if len(args) > 1:
+                return [Outcome("return", args[1], st)]
+            self.do_raise(st, "StopIteration", site)
+            return []
+        if name not in ("isinstance", "id", "type", "callable"):
+            args = tuple(self.take(a, st) for a in args)         # whoever receives an iterator consumes it
+        if name in ("zip", "enumerate", "reversed", "iter", "filter") and not (name == "iter" and len(args) != 1):
+            v = mk_app(name, args, kw) if name != "iter" else args[0]
+            if isinstance(v, TupleV):
+                return [Outcome("return", self.new_iter(v, st), st)]
+        if name == "map" and len(args) == 2 and not kw and isinstance(args[1], TupleV) and isinstance(args[0], (FuncV, Bound, ClassV)):
+            # map(f, known sequence): element-wise (evaluated eagerly, like a generator)
+            outs = [(st, ())]
+            for item in args[1].items:
+                nxt = []
+                for s1, acc in outs:
+                    for o in self.call(args[0], (item,), (), s1, site):
+                        nxt.append((o.state, acc + (o.value,)))
+                outs = nxt
+            return [Outcome("return", self.new_iter(TupleV(acc, "list"), s1), s1) for s1, acc in outs]
         if name == "isinstance" and len(args) == 2:
             r = self._isinstance(args[0], args[1])
             if r is not None:
@@ -1340,8 +1423,10 @@ class Ev(object):
                 out = []
                 for p in paths:
                     if is_gen and p.kind == "normal":
-                        out.append(Outcome("return", TupleV(list(p.val["locals"].get("<yields>", ())), "tuple"), p.st))
-                    elif p.kind == "return":      # (s_Return of a generator returns what was yielded so far)
+                        out.append(Outcome("return", self.new_iter(TupleV(list(p.val["locals"].get("<yields>", ())), "list"), p.st), p.st))
+                    elif is_gen and p.kind == "return":      # (s_Return of a generator returns what was yielded so far)
+                        out.append(Outcome("return", self.new_iter(p.val, p.st), p.st))
+                    elif p.kind == "return":
                         out.append(Outcome("return", p.val, p.st))
                     elif p.kind == "normal":
                         out.append(Outcome("return", NONE, p.st))
@@ -1388,11 +1473,91 @@ class Ev(object):
     def s_Expr(self, n, env, st):
         if isinstance(n.value, ast.Constant):
             return [Path(st, "normal", env)]
+        if isinstance(n.value, ast.Yield) and env.get("yield_handler") is not None:
+            return self._yield_to_consumer(n, env, st)
         e2 = self._cp(env)
         outs = self.expr(n.value, e2, st)
         if len(outs) <= 1:
             return [Path(s, "normal", e2) for s, _ in outs]
         return [Path(s, "normal", self._cp(e2)) for s, _ in outs]
+
+    # generator fusion (one-iteration mode): `for x in gen(...)` with a generator that cannot be run to
+    # completion (an unbounded candidate search) is evaluated as the generator's body with each
+    # `yield v` standing for one execution of the consumer's loop body with x = v
+    def _yield_to_consumer(self, n, env, st):
+        (cn, cenv) = env["yield_handler"]
+        site = self.site(n, env)
+        e2 = self._cp(env)
+        outs = self.expr(n.value.value, e2, st) if n.value.value is not None else [(st, NONE)]
+        res = []
+        for s1, v in outs:
+            ce = self._cp(cenv)
+            self.assign(cn.target, v, ce, s1, site)
+            for q in self.block(cn.body, ce, s1):
+                if q.kind in ("normal", "continue"):
+                    res.append(Path(q.st, "normal", self._cp(e2)))       # the generator resumes after the yield
+                elif q.kind == "break":
+                    res.append(Path(q.st, "gen-break", q.val))
+                elif q.kind == "return":
+                    res.append(Path(q.st, "gen-return", q.val))
+                else:
+                    res.append(q)
+        return res
+
+    def _fuse_generator(self, n, env, st):
+        """-> paths of `for <target> in <generator call>` by fusion, or None when it does not apply."""
+        if self.loop_mode != "once" or not isinstance(n.iter, ast.Call) or n.orelse:
+            return None
+        fouts = self.expr(n.iter.func, env, st.fork())
+        if len(fouts) != 1:
+            return None
+        f = fouts[0][1]
+        recv = ()
+        if isinstance(f, Bound):
+            recv, f = (f.recv,), f.func
+        if not isinstance(f, FuncV) or not self.policy.is_generator(f) or self.policy.classify(f) != "loop" \
+                or any(isinstance(a, ast.Starred) for a in n.iter.args) or any(k.arg is None for k in n.iter.keywords):
+            return None
+        site = self.site(n, env)
+        aouts = self._seq(n.iter.args, env, st)
+        if len(aouts) != 1:
+            return None
+        s1, args = aouts[0]
+        kouts = self._seq([k.value for k in n.iter.keywords], env, s1)
+        if len(kouts) != 1:
+            return None
+        s2, kwv = kouts[0]
+        loc = self.bind_args(f, recv + tuple(args), tuple(zip([k.arg for k in n.iter.keywords], kwv)), s2, site)
+        if loc is None:
+            return []
+        a = f.node.args
+        order = [x.arg for x in a.posonlyargs] + [x.arg for x in a.args] + [x.arg for x in a.kwonlyargs]
+        cenv = self._havoc_carried(n, env)
+        loc["<yields>"] = ()
+        genv = {"locals": loc, "mod": f.mod, "closure": f.closure, "func": f, "fname": f.qual, "params": tuple(order),
+                "yield_handler": (n, cenv)}
+        s2.approx.append((site, "generator %s fused with the loop that consumes it" % f.qual))
+        s2.log.append(("loop-enter", site))
+        self.depth += 1
+        self.active.append(f.qual)
+        try:
+            paths = self.block(f.node.body, genv, s2)
+        finally:
+            self.depth -= 1
+            self.active.pop()
+        out = []
+        for p in paths:
+            if p.kind in ("normal", "return"):
+                out.append(Path(p.st, "normal", self._cp(cenv)))          # generator exhausted: the loop ends
+            elif p.kind == "gen-break":
+                out.append(Path(p.st, "normal", p.val))
+            elif p.kind == "gen-return":
+                out.append(Path(p.st, "return", p.val))
+            elif p.kind == "continue":
+                self.continues.append(p)
+            else:
+                out.append(p)
+        return out
 
     def s_Pass(self, n, env, st):
         return [Path(st, "normal", env)]
@@ -1561,6 +1726,8 @@ class Ev(object):
         load = _as_load(n.target)
         for s1, cur in self.expr(load, env, st):
             for s2, r in self.expr(n.value, env, s1):
+                if op == "Add" and isinstance(cur, TupleV) and cur.kind == "list":
+                    r = self.take(r, s2)                   # lst += iterator extends the list
                 for s3, v in self.binop(op, cur, r, s2, site):
                     e2 = self._cp(env)
                     if self.assign(n.target, v, e2, s3, site, aug=True):
@@ -1583,6 +1750,7 @@ class Ev(object):
             env["locals"][t.id] = v
             return True
         if isinstance(t, (ast.Tuple, ast.List)):
+            v = self.take(v, st)
             if isinstance(v, TupleV):
                 if len(v.items) != len(t.elts):
                     self.do_raise(st, "ValueError", site, "unpack length mismatch")
@@ -1698,8 +1866,20 @@ class Ev(object):
             for y in ast.walk(x):
                 if isinstance(y, ast.Name) and isinstance(y.ctx, ast.Store) and y.id in e2["locals"]:
                     carried[y.id] = e2["locals"][y.id]
+                # a local container mutated in place in the body is carried as well
+                if isinstance(y, ast.Call) and isinstance(y.func, ast.Attribute) and y.func.attr in _MUTATORS \
+                        and isinstance(y.func.value, ast.Name) and y.func.value.id in e2["locals"] \
+                        and isinstance(e2["locals"][y.func.value.id], (TupleV, DictV)):
+                    carried[y.func.value.id] = e2["locals"][y.func.value.id]
+                if isinstance(y, ast.Subscript) and isinstance(y.ctx, ast.Store) and isinstance(y.value, ast.Name) \
+                        and y.value.id in e2["locals"] and isinstance(e2["locals"][y.value.id], (TupleV, DictV)):
+                    carried[y.value.id] = e2["locals"][y.value.id]
         for name, pre in carried.items():
-            e2["locals"][name] = Sym("loop:" + name, ty_of(pre))
+            if isinstance(pre, TupleV) and pre.kind == "list":
+                # an arbitrary list: the unknown items so far, as one splat element (appends stay visible)
+                e2["locals"][name] = TupleV([App("star", (Sym("loop:" + name, "list"),))], "list")
+            else:
+                e2["locals"][name] = Sym("loop:" + name, ty_of(pre))
         self.loop_entries.append((self.site(n, env), carried))
         return e2
 
@@ -1716,9 +1896,16 @@ class Ev(object):
         return out
 
     def s_For(self, n, env, st):
+        fused = self._fuse_generator(n, env, st)
+        if fused is not None:
+            return fused
         out = []
         site = self.site(n, env)
-        iters = self.expr(n.iter, env, st)
+        iters = [(s0, self.take(it, s0)) for s0, it in self.expr(n.iter, env, st)]
+        iters = [(s0, TupleV([_const_term(x) for x in it.v], "list") if isinstance(it, Const) and isinstance(it.v, (bytes, str, tuple, list))
+                  and len(it.v) <= 256 else it) for s0, it in iters]
+        if any(isinstance(it, TupleV) and len(it.items) > UNROLL_MAX for _, it in iters):
+            raise LoopNotUnrollable("%s:%d (more than %d iterations)" % (env["mod"].relpath, n.lineno, UNROLL_MAX))
         if all(isinstance(it, TupleV) for _, it in iters) and iters:
             # a loop over a sequence of known length is unrolled
             for s1, it in iters:
@@ -1758,6 +1945,11 @@ class Ev(object):
                 s0 = s1.fork()
                 s0.pc.append((App("exhausted", [it]), True, site))
                 out += self.block(n.orelse, self._cp(env0), s0)
+                if env is not env0 and any(env["locals"].get(k) is not env0["locals"].get(k) for k in env["locals"]):
+                    # the exit after one or more iterations: carried locals hold their (arbitrary) loop values
+                    s2 = s1.fork()
+                    s2.pc.append((App("exhausted-after", [it]), True, site))
+                    out += self.block(n.orelse, self._cp(env), s2)
         return out
 
     def s_Break(self, n, env, st):
